@@ -150,7 +150,8 @@ def image_map_from_string(input_string):
 
     try:
         return imagemap.parseString(input_string)[0]
-    except ParseException:
+    except (ParseException, ValueError):
+        # ValueError: a coordinate too long for int() - a syntax error like any other
         return ImageMap(entries=[], image=None)
 
 
